@@ -39,7 +39,7 @@ Definition res_code (r : res unit) : Z := match r with Ok _ => 0 | Err e => cexn
 Record cobs := mkcobs { co_res : Z; co_state : cost; co_getters : spec }.
 
 (* one step of a walk: a value-level assignment, or a raw-level one (node value, attached?) *)
-Inductive cstep := SVal (o : cop) | SRaw (r : rop) (v : option Z) (att : bool).
+Inductive cstep := SVal (o : cop) | SRaw (r : rop) (v : option Z) (att : bool) | SCost (c : cost) (att : bool).
 
 Record ccase := mkccase {
   cc_fixed : bool;          (* does the tree under test contain the D11 repair (probed by the harness) *)
@@ -53,6 +53,7 @@ Definition do_step (fixed late : bool) (s : cost) (st : cstep) : cost * res unit
   match st with
   | SVal o => apply_gen fixed s o
   | SRaw r v att => rapply_gen fixed late s r v att
+  | SCost c att => set_raw_cost att s c
   end.
 
 Fixpoint run_csteps (fixed late : bool) (s : cost) (steps : list (cstep * cobs)) : bool :=
